@@ -121,6 +121,7 @@ struct Tracked {
     long pad[3] = {1, 2, 3};
     char *buf;               // owned: a copy allocates, a move steals
     unsigned magic = ALIVE;
+    Tracked() : Tracked(-7) {}   // (only so that library code that value-initialises a result still compiles)
     explicit Tracked(int id_) : id(id_), buf(get()) { live++; id_ctors++; memset(buf, 'x', 24); }
     Tracked(const Tracked &o) : id(o.id), copies(o.copies + 1), moved_from(o.moved_from), buf(o.buf ? get() : nullptr) {
         if (buf) memcpy(buf, o.buf, 24);
@@ -403,7 +404,7 @@ struct World {
     void subscribe_cb() {
         cbaw.ctx = this;
         cbaw.alive_fn = [](void *c) { return static_cast<World *>(c)->frame_alive(1); };
-        cbaw.obs_fn = [](void *c) { return fut_state(*static_cast<World *>(c)->rootf); };
+        cbaw.obs_fn = [](void *c) { auto w = static_cast<World *>(c); return w->read_api(*w->rootf, false); };
         if (rootf->subscribe(&cbaw)) cbaw.sub = true;
     }
     void root_start() {
@@ -467,7 +468,7 @@ struct World {
     void drop_obj() { rootobj.reset(); objp[1] = nullptr; }
     void finish() {
         if (rootf) {
-            st.co[1].seen = fut_state(*rootf);
+            st.co[1].seen = rootf->ready() ? read_api(*rootf, true) : fut_state(*rootf);   // start() + wait()
             if (rootf->ready()) { rootf->~future(); rootf = nullptr; }
             else fail("root future still pending at the end");
         }
@@ -477,6 +478,18 @@ struct World {
             if (extf[k]->ready()) { extf[k]->~future(); extf[k] = nullptr; }
             else fail("external future still pending at the end");
         }
+    }
+
+    // what a party reads off a future it owns through the public API: value() / wait() return a reference
+    Res read_api(cocls::future<T> &f, bool by_wait) {
+        Res r = fut_state(f);
+        if constexpr (!std::is_void_v<T>) {
+            if (r.st == S_VAL) {
+                try { r = by_wait ? PT<T>::val(f.wait()) : PT<T>::val(f.value()); }
+                catch (...) { r = Res{S_OTHER, 0}; }
+            }
+        }
+        return r;
     }
 
     // ---- projection ----
